@@ -2,6 +2,7 @@
    Output goes to ocaml/gen/ (git-ignored, created by vlib.coq_make); ocaml/C19/build.sh compiles it under
    ocaml/C19/_build/. *)
 From Coq Require Import Extraction ExtrOcamlBasic.
-From C19 Require Import Model_C19.
+From C19 Require Import Model_C19 Deep_Lex_C19 Deep_Text_C19.
 Extraction Language OCaml.
-Extraction "../ocaml/gen/c19_model.ml" print_tokens parse_tokens parse_script fuel_for parser_shapedb shaped_coreb.
+Extraction "../ocaml/gen/c19_model.ml" print_tokens parse_tokens parse_script fuel_for parser_shapedb shaped_coreb
+  lex render parse_text printable_progb needs_sep tok_text is_ws.
